@@ -33,6 +33,35 @@ REGISTRY = {
         engine="E4a taint + E4c sign + E7 structural",
         ref="DESIGN.md §4 C01",
     ),
+    "C02": dict(
+        text="Abstract interpretation of the repo's own inference code over coordinate-frame values (units-of-measure monomials "
+        "over symbolic scales named by config path / allocation site, plus pending crop origins) for the six entry points "
+        "(single x2 providers; top-down both models x2; centroid-only; GT-centroid + centered-instance): every coordinate "
+        "reaching PredictedInstance.from_numpy and the raw peak/centroid outputs has monomial 1 and no pending origin; each "
+        "network receives eff_scale x its own training scale for both providers; crops are cut with boxes in the image's "
+        "frame; padding is right/bottom only; the box corner subtracted and re-added is corner 0 (listed first as "
+        "(x-w/2, y-h/2)). Because the factors cancel symbolically this holds for every image size, max height/width, both "
+        "input scales, strides, crop and batch size - which is what the property quantifies over and no test samples.",
+        note="Trusted: ast; the leaf transfer table/contracts (resize factor, F.pad, crop_and_resize, size matching returns "
+        "(image*e, e), peak finders return grid coordinates, queue payload); a network's grid is input/its own head stride. "
+        "Not decided: half-stride accuracy, NaN/0 for invisible keypoints, pixel equality of the two providers.",
+        technique="abstract interpretation with a units-of-measure (coordinate frame) domain over an explicit heap",
+        engine="E2 geom",
+        ref="DESIGN.md §2.2 E2, §4 C02",
+    ),
+    "C03": dict(
+        text="The same coordinate-frame abstract interpretation for BottomUpPredictor x both providers: grouped keypoints "
+        "emitted with monomial 1; the PAF tensor is sampled at peaks / scorer.pafs_stride which must equal the grid of the "
+        "PAF head (ties scorer stride, both head strides and the input scale to the bottom-up config); premises of the "
+        "scorer contract checked structurally (division by pafs_stride before rounding, (x,y)->(row,col), clipping to the "
+        "extent, per-sample selection, from_config binding, coordinates copied unchanged); PAFs made channel-last; "
+        "edge order toposorted.",
+        note="Trusted as C02. Not decided: that grouping returns exactly the labelled animals (numerical line integral), "
+        "channel numbering 2e+c (pinned by tests).",
+        technique="abstract interpretation with a units-of-measure domain + structural premises of the grouping contract",
+        engine="E2 geom + E7 structural",
+        ref="DESIGN.md §4 C03",
+    ),
     "C05": dict(
         text="NaN taint with missing endpoints tainted and the division by the edge norm as a NaN source (0/0 of a "
         "zero-length edge, with a positive control that the source is seen): the per-instance field is scrubbed before it is "
